@@ -77,6 +77,8 @@ pub struct Shared {
     pub in_cycle: AtomicBool,
     pub hook_count: AtomicUsize,
     pub op_sleep_us: AtomicU64,
+    pub report_gate: AtomicBool,       // the reporter waits inside report() while this is set
+    pub in_report: AtomicBool,
     pub reentrant: AtomicBool,         // free-running: the reporter traces itself now and then
     pub nrep: AtomicUsize,
     pub nrecs: AtomicUsize,            // records the reporter has been given so far
@@ -101,6 +103,8 @@ pub fn shared() -> &'static Shared {
         in_cycle: AtomicBool::new(false),
         hook_count: AtomicUsize::new(0),
         op_sleep_us: AtomicU64::new(0),
+        report_gate: AtomicBool::new(false),
+        in_report: AtomicBool::new(false),
         reentrant: AtomicBool::new(false),
         nrep: AtomicUsize::new(0),
         nrecs: AtomicUsize::new(0),
@@ -335,6 +339,15 @@ impl Reporter for CapturingReporter {
             return;
         }
         emit(json!({"ev":"report","w":wall_us(),"recs":spans.iter().map(record_json).collect::<Vec<_>>()}));
+        if !spans.is_empty() && shared().report_gate.load(Ordering::SeqCst) {
+            // held here by the `overlap` scenario: the cycle has drained the queues and does not end yet
+            shared().in_report.store(true, Ordering::SeqCst);
+            let deadline = Instant::now() + Duration::from_secs(8);
+            while shared().report_gate.load(Ordering::SeqCst) && Instant::now() < deadline {
+                std::thread::sleep(Duration::from_micros(200));
+            }
+            shared().in_report.store(false, Ordering::SeqCst);
+        }
         if !spans.is_empty() && shared().free.load(Ordering::SeqCst) && shared().reentrant.load(Ordering::SeqCst) {
             // free-running rounds: a reporter that takes a little time, so that a flush() called right after
             // the work may find a cycle in progress that has already drained the queues
